@@ -15,7 +15,6 @@ package variable
 //@ func (v *Value) ToString() (res string)
 //@   float ieee
 //@   requires wfVal(v)
-//@   carveout "D15": isVNum(absval(v)) ==> fitsInt(absval(v).n)
 //@   ensures "display": res == display(absval(v))
 //
 // ---- in_memory_storer.go: the default storer against its own abstraction (C03, C07) ---------------------
